@@ -12,7 +12,11 @@ EXTRA = {'C03a1': ['C07'], 'C07a1': ['C03'], 'C13a1': ['C01', 'C03'], 'C13a2': [
          'C12a1': ['C02'], 'C12a2': ['C02', 'C16'], 'C14a2': ['C13'], 'C09a2': ['C10', 'C07'], 'C10a1': ['C07'], 'C01a2': ['C07'], 'C02a1': ['C16'], 'C16a1': ['C02', 'C01'], 'C01a1': ['C02'],
          'C05a2': ['C02', 'C08'], 'C08a1': ['C02'], 'C11a2': ['C03'], 'C15a2': ['C13', 'C04'],
          'C02b1': ['C13'], 'C02b2': ['C12', 'C16'], 'C07b1': ['C01', 'C03'], 'C07b2': ['C03', 'C01'], 'C13b1': ['C14', 'C01', 'C03'], 'C13b2': ['C04'], 'C10b1': ['C01', 'C07'], 'C10b2': ['C01', 'C07'],
-         'C12b2': ['C02', 'C16'], 'C12b1': ['C02', 'C16']}
+         'C12b2': ['C02', 'C16'], 'C12b1': ['C02', 'C16'],
+         'C09c1': ['C04'], 'C09c2': ['C07'], 'C06b1': ['C05', 'C09'], 'C06b2': ['C05'], 'C05c1': ['C03', 'C11'], 'C05c2': ['C15', 'C07', 'C04'],
+         'C13c1': ['C14'], 'C13c2': ['C14'], 'C16c1': ['C02'], 'C16c2': ['C02'], 'C14c2': ['C13'],
+         'C17c1': [], 'C08c1': ['C02'], 'C08c2': ['C02'], 'C07c1': ['C03'], 'C07c2': ['C01'], 'C02c1': ['C16'], 'C03c1': ['C07'], 'C03c2': ['C01'], 'C15c1': ['C16', 'C02'], 'C15c2': ['C13'],
+         'C11c2': ['C07', 'C10'], 'C12c1': ['C02'], 'C12c2': ['C02'], 'C04c1': ['C03'], 'C01c1': ['C07', 'C11'], 'C01c2': ['C06'], 'C10c1': ['C02'], 'C10c2': ['C02']}
 def main():
     claimed = [c['property_id'] for c in json.load(open(os.path.join(HERE, 'MANIFEST.json')))['checks']]
     ids = sys.argv[1:] or sorted(os.listdir(os.path.join(HERE, 'seeded')))
